@@ -158,3 +158,29 @@ impl Out {
         let _ = self.w.flush();
     }
 }
+
+/// collect an ExactSizeIterator; `len()` / `size_hint()` must agree with what it yields at every point - before
+/// the first `next()`, after each one, and after exhaustion (a fused, empty iterator then) - otherwise the text
+/// carries a LENFAIL marker that no model answer contains (a panic in any of these calls is caught by the case runner)
+pub fn exact<I: ExactSizeIterator>(mut it: I) -> (Vec<I::Item>, &'static str) {
+    let announced = it.len();
+    let mut v = Vec::new();
+    let mut ok = it.size_hint() == (announced, Some(announced));
+    while let Some(x) = it.next() {
+        v.push(x);
+        if it.len() + v.len() != announced { ok = false; }
+    }
+    if v.len() != announced || it.len() != 0 || it.size_hint() != (0, Some(0)) || it.next().is_some() || it.len() != 0 { ok = false; }
+    (v, if ok { "" } else { " LENFAIL" })
+}
+
+/// Display must write exactly the canonical text whatever formatter flags the caller passes (width, fill,
+/// alignment, precision, zero padding): `Some(description)` when one of them changes the output
+pub fn fmt_flags<T: std::fmt::Display>(v: &T) -> Option<String> {
+    let plain = v.to_string();
+    let outs = [format!("{:>12}", v), format!("{:<12}", v), format!("{:*^12}", v), format!("{:.2}", v), format!("{:012}", v), format!("{:>3.1}", v)];
+    for (i, o) in outs.iter().enumerate() {
+        if *o != plain { return Some(format!("INCONSISTENT Display with formatter flags #{}: {:?} vs {:?}", i, o, plain)); }
+    }
+    None
+}
